@@ -203,6 +203,7 @@ class Walker:
         self.fn, self.world, self.line_of, self.lo, self.hi = fn, world, line_of, lo, hi
         self.events = []
         self.returns = []
+        self.return_lines = []
         self.loop_stack = []      # list of dict(breaks=[], continues=[], is_switch=bool)
         self.gotos = {}           # label decl id -> [states]
         self.tpc_vars = {}        # var decl id -> +1 / -1
@@ -626,6 +627,7 @@ class Walker:
                     if rv.get("kind") == "DeclRefExpr":
                         rk = {"MHD_NO": "NO", "MHD_YES": "YES"}.get(rv.get("referencedDecl", {}).get("name"), "?")
                 self.returns.append((st, rk))
+                self.return_lines.append(self.line(n))
             return St(dead=True)
         if k == "GotoStmt":
             self.gotos.setdefault(n.get("targetLabelDeclId"), []).append(st)
@@ -708,6 +710,12 @@ class World:
                 non = [x for x, k_ in rets if k_ in ("YES", "?")]
                 if no and non:
                     sm.by = {"NO": mk(no), "nonNO": mk(non)}
+        # exits (return statements / end of the body) reached with a mutex taken by this function possibly still held
+        end_line = self.line_of(fi.file)(hi)
+        fi.exits_holding = []
+        for (x, _k), ln in zip(rets, w.return_lines + [end_line]):
+            for L in sorted(x.may, key=LOCKS.index):
+                fi.exits_holding.append((L, ln, L in x.must))
         fi.summary = sm
         fi.events = w.events
         fi.lo, fi.hi = lo, hi
@@ -1334,6 +1342,30 @@ structure Entry where
     o.append(",\n".join('  ("%s", %d, %s, %s)' % (a, b, "true" if c else "false", "true" if d else "false") for a, b, c, d in sites))
     o.append("]")
     o.append("")
+    order = sorted(world.defs, key=lambda n: (FILES.index(world.defs[n].file), world.defs[n].line))
+    exits = [(n, L, ln, must) for n in order for (L, ln, must) in world.defs[n].exits_holding]
+    # lock wrapper: the whole body is the lock call (no other event), every exit holds the lock
+    wrappers = []
+    for n in order:
+        fi = world.defs[n]
+        evs = fi.events
+        if evs and all(e["kind"] == "lock" for e in evs) and len({e["lock"] for e in evs}) == 1 and fi.exits_holding \
+                and all(must and L == evs[0]["lock"] for (L, _ln, must) in fi.exits_holding):
+            wrappers.append((n, evs[0]["lock"]))
+    o.append("/-- exits (return statement, or the end of the body) of a function of the four files that are reached with a")
+    o.append("    mutex *taken by this function or one of its callees* possibly still held — structured control flow of the")
+    o.append("    clang AST (early returns, break/continue/goto out of the locked region, callee summaries):")
+    o.append("    (function, mutex, line of the exit, held on every path to that exit) -/")
+    o.append("def exitsHoldingLock : List (String × Lock × Nat × Bool) := [")
+    o.append(",\n".join('  ("%s", .%s, %d, %s)' % (n, L, ln, "true" if m else "false") for n, L, ln, m in exits))
+    o.append("]")
+    o.append("/-- lock wrappers: functions whose whole body is the one lock call (contract: return with the mutex held) -/")
+    o.append("def lockWrappers : List (String × Lock) := [")
+    o.append(",\n".join('  ("%s", .%s)' % x for x in wrappers))
+    o.append("]")
+    o.append("")
+    world.exits_holding = exits
+    world.lock_wrappers = wrappers
     loops = loop_cursors(world)
     o.append("/-- how a loop finds its next list position after it has released and re-taken a mutex in its body -/")
     o.append("inductive CursorKind where\n  | " + " | ".join(CURSOR_KINDS) + "\n  deriving DecidableEq, Repr")
@@ -1354,7 +1386,7 @@ structure Entry where
     o.append("end Mhd.Gen.Locks")
     world.resume_sites = sites
     world.unlock_loops = loops
-    info = dict(unlock_loops=["%s:%d %s %s %s" % x for x in loops], resume_wait_sites=["%s:%d tpcOnly=%s feeds=%s" % x for x in sites], functions=len(names), events=sum(len(ev[n]) for n in names),
+    info = dict(exits_holding_lock=["%s %s line %d must=%s" % x for x in exits], lock_wrappers=["%s %s" % x for x in wrappers], unlock_loops=["%s:%d %s %s %s" % x for x in loops], resume_wait_sites=["%s:%d tpcOnly=%s feeds=%s" % x for x in sites], functions=len(names), events=sum(len(ev[n]) for n in names),
                 edges=sorted("%s->%s" % e for e in edges), rank=rank)
     return "\n".join(o) + "\n", info, (names, ev, eMust, eMay, acq)
 
